@@ -448,3 +448,67 @@ def service_program(shape, k):
     throws = None if nt < 0 else [F(fid(i), "default", T(("inc.Err", "inc.Err2", "inc.Err3")[i]), "e%d" % i) for i in range(nt)]
     return prog("svc_%d" % k, [service("V", [fn("f", args, throws=throws, oneway=ow, ret=None if (ow or na % 2) else T("i32")),
                                              fn("g")])])
+
+
+def walk_literal(raw, q):
+    """what the parser's walker makes of raw text between quotes q (only used to NAME the included file of an include-path case)"""
+    out, i = [], 0
+    while i < len(raw):
+        if raw[i] == BS and i + 1 < len(raw) and raw[i + 1] == BS:
+            out.append(BS + BS)
+            i += 2
+        elif raw[i] == BS and i + 1 < len(raw) and raw[i + 1] == q:
+            out.append(q)
+            i += 2
+        else:
+            out.append(raw[i])
+            i += 1
+    return "".join(out)
+
+
+def raw_literal_program(place, raw, q, k):
+    """a minimal program whose source contains the literal q raw q verbatim (no content model; written as raw text)"""
+    name = "raw_%s_%d" % (place, k)
+    path = name + ".thrift"
+    lit = q + raw + q
+    p = {"name": name, "files": [{"path": path, "defs": []}]}
+    if place == "const":
+        p["raw"] = {path: "const string C = %s\n" % lit}
+    elif place == "default":
+        p["raw"] = {path: "struct S {\n  1: string a = %s\n}\n" % lit}
+    elif place == "ann_field":
+        p["raw"] = {path: "struct S {\n  1: i32 a (go.tag = %s, k = %s)\n}\n" % (lit, lit)}
+    elif place == "ann_type":
+        p["raw"] = {path: "typedef list<i32 (k = %s)> L (o = %s)\n" % (lit, lit)}
+    elif place == "include":
+        inc = walk_literal(raw + ".thrift", q)
+        p["raw"] = {path: "include %s%s.thrift%s\n" % (q, raw, q), inc: "namespace go incl\n"}
+    else:
+        raise ValueError(place)
+    return p
+
+
+# numeric boundary family of C17: magnitude class -> spelling of the (positive) double constant
+NUM_CLASSES = {
+    "1e15": "1000000000000000.0", "2p53": "9007199254740992.0", "1e18": "1000000000000000000.0",
+    "2p63-1024": "9223372036854774784.0", "2p63": "9223372036854775808.0", "9.5e18": "9500000000000000000.0",
+    "1e19-2048": "9999999999999997952.0", "1e19": "10000000000000000000.0", "1e20": "100000000000000000000.0",
+    "2p31": "2147483648.0", "exp-9.5e18": "9.5e18", "exp-1e19": "1e19", "exp-2p63": "9.223372036854775808e18",
+    "frac-0.5": "0.5", "frac-1e15": "1000000000000000.5", "frac-2p51": "2251799813685248.5", "frac-small": "123456789.25",
+    "frac-tiny": "0.000000000000000000015",
+}
+NUM_PLACES = ["const", "default", "listelem", "mapvalue"]
+
+
+def numeric_program(sign, cls, place, k):
+    v = Dfix(("-" if sign == "-" else "") + NUM_CLASSES[cls])
+    name = "num_%s_%d" % (place, k)
+    if place == "const":
+        return prog(name, [const("X", T("double"), v)], inc=False)
+    if place == "default":
+        return prog(name, [struct("S", [F(1, "optional", T("double"), "a", v)])], inc=False)
+    if place == "listelem":
+        return prog(name, [const("X", T("list", T("double")), LST(D(1, "5"), v, I(2)))], inc=False)
+    if place == "mapvalue":
+        return prog(name, [const("X", T("map", T("string"), T("double")), MAP((L("k"), v), (L("j"), D(0, "5"))))], inc=False)
+    raise ValueError(place)
